@@ -29,16 +29,39 @@ def add_hub_graphs(path, seed, count):
     return len(lines)
 
 
+def add_random_graphs(path, seed, count):
+    """Random members of the same family with 3..5 operators (same JSON format as MC_Executor's Emit)."""
+    import random
+    rnd = random.Random(seed * 7919 + 1)
+    with open(path, "a") as f:
+        for _ in range(count):
+            nops = rnd.choice([3, 3, 4, 5])
+            ops = []
+            for i in range(1, nops + 1):
+                k = rnd.choice([1, 2, 2])
+                ins = [rnd.randrange(1, 2 + i) for _ in range(k)]
+                ops.append({"ins": ins, "inplace": rnd.random() < 0.6, "comm": k == 2 and rnd.random() < 0.4})
+            nv = 2 + nops
+            outs = sorted(set([nv] + rnd.sample(range(1, nv), rnd.choice([0, 0, 1, 2]))))
+            owned = [v for v in (1, 2) if rnd.random() < 0.5]
+            big = [v for v in (1, 2) if rnd.random() < 0.4]
+            f.write(json.dumps({"ni": 2, "ops": ops, "outs": outs, "owned": owned, "big": big}) + "\n")
+    return count
+
+
 def run_exec(ctx, prop):
     ctx.build(["vh-graph"])
     # design level: the transcribed in-place rule of Graph::run_plan refines the contract on every
     # graph of the family (Init enumerates all graphs; TLC runs each plan)
-    gen_cfg = "graph/MC_Executor_gen2.cfg" if ctx.quick else "graph/MC_Executor_gen3.cfg"
+    # (the 3-operator family has 4.8M graphs: TLC's single-threaded enumeration of initial states makes it
+    # impractical, so both tiers model-check the complete 2-operator family; the thorough tier executes a 12x larger
+    # sample of its graphs and adds random graphs of 3..5 operators, judged by the same trace spec)
+    gen_cfg = "graph/MC_Executor_gen2.cfg"
     graphs_all = ctx.path("graphs_all.jsonl")
     ng = ctx.tlc_generate("graph/MC_Executor", gen_cfg, graphs_all, workers=6, timeout=3000, heap="12g")
     # usage counts are u8 in the code and saturate ("sticky" at 255): with CountMax = 2 / 3 TLC reaches
     # saturation on the same graph family; the non-sticky variant must break the contract
-    ctx.tlc_mc("graph/MC_Executor", "graph/MC_Executor2_sat.cfg" if ctx.quick else "graph/MC_Executor3_sat.cfg",
+    ctx.tlc_mc("graph/MC_Executor", "graph/MC_Executor2_sat.cfg",
                workers=6, timeout=3000, heap="12g", label="saturating usage counts (CountMax small): sticky counts keep the in-place rule safe")
     if not ctx.quick:
         info, out = ctx.tlc_mc("graph/MC_Executor", "graph/MC_Executor2_satbroken.cfg", workers=2, timeout=900, expect_ok=False,
@@ -46,9 +69,10 @@ def run_exec(ctx, prop):
         if "is violated" not in out:
             raise vlib.ToolError("Executor with StickyDec = FALSE did not produce the expected counterexample")
     graphs = ctx.path("graphs.jsonl")
-    n = vlib.sample_lines(graphs_all, graphs, 2500 if ctx.quick else 60000, ctx.seed)
+    n = vlib.sample_lines(graphs_all, graphs, 2500 if ctx.quick else 30000, ctx.seed)
     if not ctx.replay:
         n += add_hub_graphs(graphs, ctx.seed, 6 if ctx.quick else 40)
+        n += add_random_graphs(graphs, ctx.seed, 300 if ctx.quick else 20000)
     if ctx.replay:
         with open(graphs, "w") as f:
             g = dict(ctx.replay["record"]["case"]["g"])
